@@ -183,6 +183,15 @@ def check_odd(res):
                                  {'must': must, 'may': sorted(allowed - set(must))}, {'result': gotn, 'missing': missing, 'extra': extra})
                     v['ast'] = repr(ast)
                     res.add_violation(ID, v)
+        # a root that is no directory (missing, or a regular file) holds nothing - not even `.` and `..`
+        for rootname in ('zz-missing', 'b'):
+            for text in ('./', '../', '.', '.*', '*', './*', '**', '.*/', 'a'):
+                for fs in ('GE', 'GDEY', 'GEK'):
+                    res.n['evaluations'] += 1
+                    got = G.glob(text, flags=fscommon.gflags(fs), root_dir=os.path.join(sc.root, rootname))
+                    if got:
+                        res.add_violation(ID, run.viol('result-under-non-directory-root', {'tree': ODD_TREE, 'pattern': text, 'flags': fs,
+                                                                                            'root': rootname}, [], sorted(got)))
         res.samples.append({'tree': ODD_TREE, 'pattern': '*', 'flags': 'GEO'})
     finally:
         sc.close()
@@ -302,6 +311,9 @@ def replay(v):
             got = sorted(set(refglob.norm(x) for x in real_glob(pp, f2, sc.root)[0] or []))
             return {'violates': got != ind, 'observed': [x.replace(sc.root, '<ROOT>') for x in got]}
         got, nscan = real_glob(inp['pattern'], inp['flags'], sc.root)
+        if v['kind'] == 'result-under-non-directory-root':
+            got = sorted(G.glob(inp['pattern'], flags=fscommon.gflags(inp['flags']), root_dir=os.path.join(sc.root, inp['root'])))
+            return {'violates': bool(got), 'observed': got}
         if v['kind'] == 'dir_fd-differs':
             fd = os.open(sc.root, os.O_RDONLY | os.O_DIRECTORY)
             try:
